@@ -987,6 +987,10 @@ func (r *xReplayer) step(i int, st xStep) *xMismatch {
 		if err != nil {
 			return &xMismatch{"drift", "harness", i, "", err.Error()}
 		}
+		stateBefore := -1
+		if pr, err := r.project(nk); err == nil {
+			stateBefore = pr.state[st.K]
+		}
 		hit, goCh := r.fs.arm("_gc")
 		p := xLaunch(xCallID{"g", st.K}, func() xOut { return xOut{err: r.db.garbageCollectFile(uint16(st.K), s.Size())} })
 		res := p.settle(c.hang)
@@ -1021,6 +1025,12 @@ func (r *xReplayer) step(i int, st xStep) *xMismatch {
 			}
 			if p.out.err != nil || p.out.panicked != nil {
 				return &xMismatch{"drift", "gc", i, "garbageCollectFile returns nil", fmt.Sprint(p.out.err, p.out.panicked)}
+			}
+			// S5: a pass that does not compact leaves the file in the writer set it was in
+			if pr, err := r.project(nk); err == nil && stateBefore >= 0 && pr.state[st.K] != stateBefore {
+				return &xMismatch{"verdict", "gc-restore", i,
+					fmt.Sprintf("garbageCollectFile(%d) that does not compact (%s) leaves the file in its writer set (state %d)", st.K, st.R, stateBefore),
+					fmt.Sprintf("state %d afterwards", pr.state[st.K])}
 			}
 		} else {
 			r.cnt.GcBegin++
